@@ -1,6 +1,7 @@
 package props
 
 import (
+	"strings"
 	"go/ast"
 	"go/token"
 	"go/types"
@@ -429,4 +430,95 @@ func ruleDeleteByIdentity(c *Ctx, m *schedModel, rule string) {
 		}
 		c.Check(rule, f.Key()+" delete:loaded by identity", c.Pos(dc), ok, "expiry events are not unique per runner (timer, retry goroutine, expireRunner, eviction, finish branch): an unconditional delete keyed by model path lets a stale event for R1 remove the entry of its successor R2")
 	}
+}
+
+// collectsLoaded: f ranges over the loaded map with a body that does nothing but append the value to a
+// local list, with loadedMu held; returns that list.
+func (m *schedModel) collectsLoaded(f *core.Func) (list types.Object, ok bool) {
+	info := m.info
+	for _, rl := range rangeLoops(f) {
+		if core.FieldVar(info, rl.Stmt.X) != m.fLoaded || len(rl.Stmt.Body.List) != 1 {
+			continue
+		}
+		as, isAs := rl.Stmt.Body.List[0].(*ast.AssignStmt)
+		if !isAs || len(as.Lhs) != 1 || len(as.Rhs) != 1 || len(core.CallsTo(info, as, false, "builtin.append")) != 1 {
+			continue
+		}
+		vid, isV := rl.Stmt.Value.(*ast.Ident)
+		if !isV || !core.UsesObj(info, as.Rhs[0], info.Defs[vid]) {
+			continue
+		}
+		if p := core.PathOf(info, as.Lhs[0]); p.Valid() && len(p.Fields) == 0 {
+			list = p.Root
+			ok = m.lc.heldAt(as).HasClass(m.fLoadedMu)
+		}
+	}
+	return list, ok
+}
+
+// snapshotCall: e is a call to a function of package server that collects the loaded map (collectsLoaded)
+// and returns that list, and nothing else, from every return.
+func (m *schedModel) snapshotCall(e ast.Expr) bool {
+	call, isC := ast.Unparen(e).(*ast.CallExpr)
+	if !isC {
+		return false
+	}
+	name := core.CalleeName(m.info, call)
+	if !strings.HasPrefix(name, "server.") {
+		return false
+	}
+	h := m.lc.fn(strings.TrimPrefix(name, "server."))
+	if h == nil {
+		return false
+	}
+	list, ok := m.collectsLoaded(h)
+	if !ok || list == nil {
+		return false
+	}
+	n := 0
+	for _, ex := range m.c.G(h).Returns() {
+		if ex.Return == nil || len(ex.Return.Results) != 1 {
+			return false
+		}
+		id, isID := ast.Unparen(ex.Return.Results[0]).(*ast.Ident)
+		if !isID || m.info.ObjectOf(id) != list {
+			return false
+		}
+		n++
+	}
+	// the list is written by the collecting append and its make only
+	for _, as := range m.c.G(h).AssignsTo(list) {
+		if a, isAs := as.Node.(*ast.AssignStmt); isAs && len(a.Rhs) == 1 {
+			if len(core.CallsTo(m.info, a.Rhs[0], false, "builtin.append", "builtin.make")) == 1 {
+				continue
+			}
+		}
+		if _, isDecl := as.Node.(*ast.DeclStmt); isDecl {
+			continue
+		}
+		return false
+	}
+	return n > 0
+}
+
+// snapshotLocal: the local of f that holds the collected runners: filled by a collecting loop in f itself,
+// or assigned once from a snapshotCall.
+func (m *schedModel) snapshotLocal(f *core.Func) (list types.Object, ok bool) {
+	if l, k := m.collectsLoaded(f); l != nil {
+		return l, k
+	}
+	g := m.c.G(f)
+	core.InspectShallow(f.Body, func(n ast.Node) bool {
+		as, isAs := n.(*ast.AssignStmt)
+		if !isAs || len(as.Lhs) != 1 || len(as.Rhs) != 1 || !m.snapshotCall(as.Rhs[0]) {
+			return true
+		}
+		if id, isID := as.Lhs[0].(*ast.Ident); isID {
+			if o := m.info.ObjectOf(id); o != nil && len(g.AssignsTo(o)) == 1 {
+				list, ok = o, true
+			}
+		}
+		return true
+	})
+	return list, ok
 }
